@@ -394,6 +394,7 @@ func execIVF(c *ivfCase) []string {
 	// Flush, or only after it (rexec.go); the search line is emitted where the Execute happens (the
 	// flat index's answer that travels along is asked for at that moment too)
 	var rex rexQueue
+	var trainSlices [][]float32 // the slices handed to the last Train (the caller keeps using them)
 	search := func(cmd ivfCmd, q []float32, thr float32, p int, pDefault bool) {
 		build := func(s comet.VectorSearch) comet.VectorSearch {
 			s = s.WithQuery(append([]float32(nil), q...)).WithK(cmd.K).WithThreshold(thr).
@@ -448,9 +449,22 @@ func execIVF(c *ivfCase) []string {
 			nodes := make([]comet.VectorNode, n)
 			var b strings.Builder
 			b.WriteString("op train")
+			trainSlices = trainSlices[:0]
 			for i := 0; i < n; i++ {
 				v := core.FromBits(c.Train[i])
-				nodes[i] = *comet.NewVectorNodeWithID(uint32(1000000+i), append([]float32(nil), v...))
+				// ids of the training nodes: far away from the documents' ids, or — as the hybrid
+				// index's Train numbers them — 0..n-1 / 1..n, colliding with document ids (a
+				// training node's id means nothing once Train has returned)
+				tid := uint32(1000000 + i)
+				switch len(c.Train) % 3 {
+				case 1:
+					tid = uint32(i)
+				case 2:
+					tid = uint32(i + 1)
+				}
+				sl := append([]float32(nil), v...)
+				trainSlices = append(trainSlices, sl)
+				nodes[i] = *comet.NewVectorNodeWithID(tid, sl)
 				b.WriteByte(' ')
 				b.WriteString(core.VecHex(v))
 			}
@@ -478,7 +492,20 @@ func execIVF(c *ivfCase) []string {
 					}
 				}
 			}
-			err := idx.Add(*comet.NewVectorNodeWithID(cmd.ID, append([]float32(nil), raw...)))
+			arg := append([]float32(nil), raw...)
+			if cmd.ID%4 == 0 && len(trainSlices) > 0 {
+				// the caller goes on using the slices it trained with: the same backing array is
+				// handed to Add (which may normalise it in place) — the index's centroids must be
+				// its own copies
+				// (each slice once: the index keeps the slice it is given)
+				ti := len(trainSlices) - 1
+				if len(trainSlices[ti]) == len(raw) {
+					copy(trainSlices[ti], raw)
+					arg = trainSlices[ti]
+				}
+				trainSlices = trainSlices[:ti]
+			}
+			err := idx.Add(*comet.NewVectorNodeWithID(cmd.ID, arg))
 			if err == nil && wasLive && !dupMode {
 				dupMode, dupQ = true, append([]float32(nil), raw...)
 			}
@@ -497,7 +524,21 @@ func execIVF(c *ivfCase) []string {
 			lines = afterOp(append(lines, fmt.Sprintf("op add %d %s => %s", cmd.ID, core.VecHex(raw), out)))
 			rex.run()
 		case "remove":
-			err := idx.Remove(*comet.NewVectorNodeWithID(cmd.ID, nil))
+			// Remove goes by id: whatever vector the node carries (none, a far-away one, another
+			// document's) must not matter
+			var rmVec []float32
+			switch cmd.ID % 3 {
+			case 1:
+				rmVec = make([]float32, c.Dim)
+				for i := range rmVec {
+					rmVec[i] = float32(1000 * (i%2*2 - 1))
+				}
+			case 2:
+				if len(trainSlices) > 0 {
+					rmVec = append([]float32(nil), trainSlices[int(cmd.ID)%len(trainSlices)]...)
+				}
+			}
+			err := idx.Remove(*comet.NewVectorNodeWithID(cmd.ID, rmVec))
 			flat.Remove(*comet.NewVectorNodeWithID(cmd.ID, nil))
 			lines = afterOp(append(lines, fmt.Sprintf("op remove %d => %s", cmd.ID, vecErr(err))))
 			rex.run()
